@@ -423,6 +423,21 @@ def run(ctx):
             conv = [c for g in family for body in M.all_bodies(g) for _, c in M.calls(body) if M.callee_name(c).endswith("ScalarJsonValue::try_from_json_value")] or \
                    [r for p, r in arr if "try_from_json_value" in r]
             ctx.check(bool(conv), "C12.flatten", "C12.flatten:FlattenedJsonValue:Array:elements", w.where(fj), bad_msg="array elements are not converted with ScalarJsonValue::try_from_json_value")
+            # ... each on its own: an element that is not a scalar is skipped, it does not end the array (map_while / take_while / scan / a `break`
+            # would hide every scalar that follows an object, float or nested array from `event_property_contains`)
+            adaptors = sorted({M.callee_name(c).rsplit("::", 1)[-1] for g in family for body in M.all_bodies(g) for _, c in M.calls(body)
+                               if "iter::traits::iterator::Iterator::" in M.callee_name(c) or "::iter::adapters::" in M.callee_name(c)})
+            cutting = [a_ for a_ in adaptors if a_ in ("map_while", "take_while", "scan", "try_fold", "try_for_each", "take", "skip_while", "step_by", "find", "find_map", "position", "next")]
+            loops_break = False
+            for body in M.all_bodies(fj):
+                cfg_ = M.Cfg(body)
+                for head, blocks in cfg_.natural_loops().items():
+                    exits = [(b_, s_) for b_ in blocks for s_ in cfg_.succ[b_] if s_ not in blocks]
+                    # a hand-written loop may only be left when the iterator is exhausted (one exit edge, from the block that switches on next())
+                    loops_break = loops_break or len({b_ for b_, _ in exits}) > 1
+            ctx.check(not cutting and not loops_break, "C12.flatten", "C12.flatten:FlattenedJsonValue:Array:every-element", w.where(fj),
+                      bad_msg=f"the array's elements are not all visited: {cutting or 'the element loop has an early exit'} stops at the first element that is not a scalar, so the "
+                              f"scalars after it are lost (e.g. m.mentions.user_ids = [{{..}}, \"@me:hs\"] no longer contains @me:hs)")
 
     ctx.rule("C12.keys", "rules of one kind are identified by rule_id only: Hash / PartialEq / Equivalent<str> of the three rule types read nothing but rule_id")
     n = 0
